@@ -295,6 +295,9 @@ class SymStr(SymStrBase):
                 ne += 1
             if ne == 0:
                 raise ValueError("could not convert string to float")
+            if isinstance(e, int) and e > 400:
+                # beyond the float range (inf / 0.0 in CPython): outside the real-number model
+                raise C.Infeasible()
             if isinstance(e, int):
                 mant = mant * z3.RealVal(10**e) if esign > 0 else mant / z3.RealVal(10**e)
             else:
